@@ -50,6 +50,16 @@ def build_probes(cfg, out, engine=None):
     return p
 
 
+def sdl_refusal_kind(msg):
+    """Coarse class of a schema-build refusal (used to tell one known defect from another)."""
+    import re
+    if "should be of Type" in msg and "as defined in the" in msg:
+        return "interface_field_type_covariance"
+    if "Interface" in msg and "rgument" in msg:
+        return "interface_field_arguments"
+    return re.sub(r"<[^>]*>", "<>", msg)[:60]
+
+
 def exc_violation(out):
     if isinstance(out.exc, (SimDeadlock, SimStepCap)):
         return V("no_termination", "execute did not terminate: %r (parked=%d)" % (out.exc, len(out.rt.loop.parked)),
@@ -110,7 +120,20 @@ def run_single(prop, seed, preset, want_case, schema_knobs=None, doc_knobs=None,
                     tape.used[k] = v
     name = "%s_%d" % (prop, seed)
     try:
-        engine = cook_engine(case.schema, name, cfg, sdl=case.sdl)
+        try:
+            engine = cook_engine(case.schema, name, cfg, sdl=case.sdl)
+        except Exception as e:  # noqa: BLE001
+            # the generated SDL is valid by construction: the engine has to build it
+            msg = " ".join(str(e).split())
+            r = base_result(tape, None, [V("valid_sdl_refused", "cooking the (valid) SDL failed: %s: %s" % (type(e).__name__, msg[:300]),
+                                           kind=sdl_refusal_kind(msg))])
+            r["digest"] = run_digest([], [], None, repr(type(e)))
+            r["case_digest"] = case.digest()
+            r["case"] = case.render()
+            r["case"]["engine_config"] = cfg
+            r["_plan"], r["_case"], r["_out"] = plan, case, None
+            r["early"] = True
+            return r
         out = execute_once(engine, case.text, case.op_name, case.variables, plan, tape.sub("sched"),
                            sched[0], sched[1], sched[2], root_value=plan.root_value)
         post_viol = post_engine(engine, case, plan, tape, out) if (post_engine is not None and out.exc is None) else []
